@@ -9,7 +9,7 @@ C08_<class>_roundtrip / _rewrite / _refuted) + correspondence on instances built
  (c) support: record-trace hook (hooks/C08.patch) - the W-trace of a dump equals the R-trace of the reload, for every
      serialisable class (also those without a model).  Skipped with a note when the hook is not in the library.
 """
-import sys, os, math, tempfile, shutil
+import sys, os, math, tempfile, shutil, json
 from decimal import Decimal
 sys.path.insert(0, os.path.dirname(__file__))
 from common import *
@@ -513,7 +513,39 @@ def key_of(cls, path, a, b, case):
     return '%s:%s-not-preserved' % (cls.name, p)
 
 # ----------------------------------------------------------------------------- main
+def replay(ctx, path):
+    """bin/check C08 --replay <replay file>: runs the recipe of a replay file again and prints what differs"""
+    build_lib(ctx)
+    exe = build_harness(ctx, 'C08')
+    if exe is None: print('ERROR: harness does not build'); sys.exit(3)
+    d = json.load(open(path))
+    rec = d.get('replay', {})
+    case = rec.get('recipe') or rec.get('case')
+    if not case: print('ERROR: no recipe in', path); sys.exit(3)
+    case = sx_parse(case)
+    nfdir = tempfile.mkdtemp(prefix='C08_nf_', dir=BUILD)
+    try:
+        res = run_impl_all(ctx, exe, 'replay', [case], {'VERIF_C08_DIR': nfdir})
+    finally:
+        shutil.rmtree(nfdir, ignore_errors=True)
+    r = res[0]
+    print('case:', sx_str(case)[:400])
+    if case[0] != 1 or r is None or len(r) < 11:
+        print('result:', r if not (r and r[0] == -990) else 'the process dies during: ' + US(r[1])); sys.exit(1 if not r or r[0] < 0 else 0)
+    cls = BYID[case[1]]
+    okd, fileA, okl, G0, X0, G1, X1, fileB = r[:8]
+    print('class %s: dump %s, reload %s, second dump %s' % (cls.name, 'ok' if okd else 'FAILS', 'ok' if okl else 'FAILS', 'identical' if fileA == fileB else 'DIFFERS'))
+    print(US(fileA))
+    bad = 0
+    if okl:
+        for pth, a, b in diffs(cls.G, G0, G1, undy, undy, same15) + diffs(cls.X, X0, X1, undy, undy, same15):
+            print('  %s: %r before saving, %r after reloading' % (pth, a, b)); bad += 1
+    sys.exit(1 if (bad or not okd or not okl or fileA != fileB) else 0)
+
 def run(ctx):
+    if ctx.tier == '--replay' or os.environ.get('VERIF_REPLAY'):
+        # python3 checks/C08.py C08 --replay <file>   or   VERIF_REPLAY=<file> bin/check C08
+        return replay(ctx, os.environ.get('VERIF_REPLAY') or sys.argv[3])
     quick = ctx.quick()
     build_lib(ctx)
     proofs_ok = coq_properties(ctx)
@@ -647,7 +679,7 @@ def main_part(ctx, quick, rng, runner, exe, env):
         for k, text in vio:
             st = ctx.violation(k, text + (' [the model predicts the loss of: %s]' % ', '.join(sorted(set(pred))) if pred else ''),
                                {'class': cls.name, 'recipe': sx_str(c), 'file_written': fileA, 'file_rewritten': fileB if fileB != fileA else '(identical)',
-                                'how': 'build the object of the recipe (see harness/C08.cpp, class %d), dumpToNF, createFromNF, compare getters' % cls.cid})
+                                'how': 'VERIF_REPLAY=<this file> bin/check C08   (builds the object of the recipe - harness/C08.cpp, class %d - dumpToNF, createFromNF, compares the getters)' % cls.cid})
             found_input = True
         # correspondence (b)
         drift = []
